@@ -128,7 +128,7 @@ def kill_refusals(ctx: Ctx, scratch: str) -> int:
         be = c01.Backend(kind, scratch)
         app = be.app
         me = world.runner_ctx("r1")
-        stub = types.SimpleNamespace(app=app, runner_context=me, logger=app.logger)
+        stub = world.RunnerStub(app=app, runner_context=me, logger=app.logger)
         for status in c01.ST:
             for owner in (None, "r1", "r2"):
                 inv = be.new_invocation()
